@@ -80,6 +80,9 @@ def classify(req, model):
 def oracle(req, impl, build):
     parts = impl.split(" | ")
     if len(parts) != 6:
+        if impl == "panic" and req.startswith("serde gen=") and "gen=mock" not in req:
+            # saving, restoring and continuing a seeded generator involves nothing that may panic (no scripted source can run dry)
+            return "a save / restore / continue history of a seeded generator panicked (the restored generator, or the original, cannot continue)"
         return None if impl == "panic" else "malformed result"
     j1, o1, o2, o3, j2, j3 = parts
     if o2 != o3:
